@@ -153,6 +153,15 @@ func checkC10(c *Ctx) {
 	// index is installed only after a successful flush and close (decided by C11's rule)
 	nB := c.borrow(checkC11, "C11/ATOMIC/index/install", "C10/PERSIST/index-install", "the new index replaces the old one only after its buffered writer was flushed and the file closed without error: a write fault cannot be reported as success while an incomplete index is installed")
 	r.Floor("C10/PERSIST/index-install", "borrowed obligations", nB, 1)
+	// an index written back from a snapshot that was loaded in an earlier critical section
+	// silently undoes, on disk, the deliveries and removals committed in between (decided by
+	// C09's bucket-lock rule for the file store's methods)
+	nS := c.borrow(func(c2 *Ctx) {
+		if pm := c2.pairing(); pm.ok {
+			c2.c09File(pm)
+		}
+	}, "C09/GUARD/file/(*file.Store).", "C10/PERSIST/no-stale-writeback", "every file.Store method that writes the index loads it and writes it back inside one critical section of the mailbox's bucket lock, in write mode")
+	r.Floor("C10/PERSIST/no-stale-writeback", "borrowed obligations", nS, 1)
 }
 
 // persistAfter returns "" if every success-capable return after `at` passes writeIndex,
@@ -308,7 +317,7 @@ func (c *Ctx) c10Codec(fm *fsModel, readIndex *ssa.Function, msgT *types.Named, 
 		okG := true
 		what := ""
 		for _, ret := range successReturns(fn) {
-			f := eng.LoadedField(ret.Results[0])
+			f := eng.LoadedField(eng.ReturnResults(ret)[0])
 			switch {
 			case f != nil && persisted[f]:
 				what = f.Name()
@@ -839,7 +848,7 @@ func (c *Ctx) c10Paths() {
 		allRet := deleg != nil && i >= 0 && i < len(deleg.Call.Args) && deleg.Call.Args[i] == hashA
 		if allRet {
 			for _, ret := range successReturns(byName) {
-				if len(ret.Results) != 1 || ret.Results[0] != ssa.Value(deleg) {
+				if len(eng.ReturnResults(ret)) != 1 || eng.ReturnResults(ret)[0] != ssa.Value(deleg) {
 					allRet = false
 				}
 			}
